@@ -131,6 +131,10 @@ def conform(prop, g, make_adapter, *, env_key=None, match=default_match, max_dep
                                                 "%s: %s" % (type(ex).__name__, str(ex)[:200]), steps=st,
                                                 extra={"traceback": traceback.format_exc()[-2000:]}))
                 actual = None
+                if isinstance(ex, StepTimeout):
+                    w.divergences[-1].kind = "nontermination"
+                    w.complete = False
+                    return w
             finally:
                 if ad is not None and hasattr(ad, "close"):
                     try:
@@ -374,17 +378,31 @@ class deadline(object):
         return False
 
 
-def guarded(adapter_cls, seconds=20):
-    """wrap an adapter class so that every step runs under a deadline"""
+def guarded(adapter_cls, seconds=10):
+    """wrap an adapter class so that construction and every step run under a deadline; after the first timeout every
+    further use fails at once (an endless loop in the code under test would otherwise cost the deadline per trace)"""
+    state = {"dead": None}
 
     class Guarded(adapter_cls):
         def __init__(self, *a, **k):
-            with deadline(seconds):
-                adapter_cls.__init__(self, *a, **k)
+            if state["dead"]:
+                raise StepTimeout(state["dead"])
+            try:
+                with deadline(seconds):
+                    adapter_cls.__init__(self, *a, **k)
+            except StepTimeout as ex:
+                state["dead"] = str(ex)
+                raise
 
         def step(self, *a, **k):
-            with deadline(seconds):
-                return adapter_cls.step(self, *a, **k)
+            if state["dead"]:
+                raise StepTimeout(state["dead"])
+            try:
+                with deadline(seconds):
+                    return adapter_cls.step(self, *a, **k)
+            except StepTimeout as ex:
+                state["dead"] = str(ex)
+                raise
 
     Guarded.__name__ = adapter_cls.__name__
     return Guarded
